@@ -437,6 +437,18 @@ PIPE_CKS = ["GROUNDING", "CONDITIONAL_EFFECTS_REMOVING", "DISJUNCTIVE_CONDITIONS
             "QUANTIFIERS_REMOVING", "USERTYPE_FLUENTS_REMOVING", "BOUNDED_TYPES_REMOVING", "STATE_INVARIANTS_REMOVING",
             "INTERPRETED_FUNCTIONS_REMOVING", "UNDEFINED_INITIAL_NUMERIC_REMOVING", "TIMED_TO_SEQUENTIAL",
             "DURATIVE_ACTIONS_TO_PROCESSES", "TRAJECTORY_CONSTRAINTS_REMOVING"]
+# compilation kinds whose registered compiler accepts the generated problems most often (state invariants and
+# bounded types first, because several other compilers do not support them)
+COMMON_CKS = ["STATE_INVARIANTS_REMOVING", "BOUNDED_TYPES_REMOVING", "USERTYPE_FLUENTS_REMOVING", "QUANTIFIERS_REMOVING",
+              "CONDITIONAL_EFFECTS_REMOVING", "NEGATIVE_CONDITIONS_REMOVING", "GROUNDING", "INTERPRETED_FUNCTIONS_REMOVING"]
+
+
+def rand_pipeline(rng):
+    n = rng.choice([1, 2, 2, 3, 3])
+    if rng.random() < 0.6:
+        # an order in which each stage usually supports what the previous ones declare
+        return sorted(rng.sample(COMMON_CKS, n), key=COMMON_CKS.index)
+    return [rng.choice(PIPE_CKS) for _ in range(n)]
 
 
 def cases(rng, tier):
@@ -461,19 +473,20 @@ def cases(rng, tier):
             yield ["rk", cname, rand_kind(rng)]
     for _ in range(80 * n):
         k = clean(rand_kind(rng, base=["ACTION_BASED"] if rng.random() < 0.8 else None))
-        yield ["chain", k, [rng.choice(PIPE_CKS + CKS) for _ in range(rng.choice([1, 2, 2, 3]))]]
+        yield ["chain", k, rand_pipeline(rng) if rng.random() < 0.6 else
+               [rng.choice(PIPE_CKS + CKS) for _ in range(rng.choice([1, 2, 2, 3]))]]
     for i in range(200 * n):
         src = gen_problem_src(rng, tier)
         yield ["probs", src]
         if i % 2 == 0:
-            yield ["pipe", src, [rng.choice(PIPE_CKS) for _ in range(rng.choice([1, 2, 2, 3]))]]
+            yield ["pipe", src, rand_pipeline(rng)]
 
 
 def search(rng, tier):
     while True:
         src = gen_problem_src(rng, tier)
         yield ["probs", src]
-        yield ["pipe", src, [rng.choice(PIPE_CKS) for _ in range(rng.choice([2, 3]))]]
+        yield ["pipe", src, rand_pipeline(rng)]
 
 
 # ------------------------------------------------------------------------------------------------
